@@ -43,6 +43,9 @@ def one(src):
     elif prop.startswith('S'):
         # third round: worktrees /tmp/wt/S<nn>, stored as <prop>-r7, r8
         prop, k = 'C' + prop[1:], str(int(k) + 6)
+    elif prop.startswith('U'):
+        # fifth round: worktrees /tmp/wt/U<nn>, stored as <prop>-r11, r12
+        prop, k = 'C' + prop[1:], str(int(k) + 10)
     elif prop.startswith('T'):
         # fourth round: worktrees /tmp/wt/T<nn>, stored as <prop>-r9, r10
         prop, k = 'C' + prop[1:], str(int(k) + 8)
